@@ -250,4 +250,42 @@ theorem query_spec (d : Nat) (q : NBox) (t : PTree) (hw : ∀ r ∈ t.rows, WF d
             apply List.Perm.append_right
             exact List.perm_append_comm
 
+/-! ### the tree that is actually built holds exactly the given rows -/
+
+theorem build_rows (ps : Nat) (k : Nat) (rs : List Row) : (build ps k rs).rows = rs.take (2 ^ k * ps) := by
+  induction k generalizing rs with
+  | zero => simp [build, PTree.rows]
+  | succ k ih =>
+    simp only [build, PTree.rows, ih]
+    rw [List.take_take, List.take_drop]
+    have e : 2 ^ (k + 1) * ps = 2 ^ k * ps + 2 ^ k * ps := by rw [Nat.pow_succ]; rw [Nat.mul_assoc, Nat.mul_comm 2 ps, ← Nat.mul_assoc]; omega
+    rw [e, Nat.min_self]
+    conv => rhs; rw [← List.take_append_drop (2 ^ k * ps) (rs.take (2 ^ k * ps + 2 ^ k * ps))]
+    congr 1
+    all_goals first
+      | (rw [List.take_take]; congr 1 <;> omega)
+      | (rw [List.drop_take]; congr 1 <;> omega)
+
+theorem le_two_pow_clog2 (m : Nat) : m ≤ 2 ^ clog2 m := by
+  unfold clog2
+  split
+  · have := Nat.two_pow_pos 0; omega
+  · have := @Nat.lt_log2_self (m - 1)
+    omega
+
+theorem buildTree_rows (ps : Nat) (hps : 1 ≤ ps) (sorted : List Row) : (buildTree ps sorted).rows = sorted := by
+  unfold buildTree
+  rw [build_rows]
+  apply List.take_of_length_le
+  have h1 := le_two_pow_clog2 (numPages sorted.length ps)
+  have h2 : sorted.length ≤ numPages sorted.length ps * ps := by
+    unfold numPages
+    have := Nat.div_add_mod (sorted.length + ps - 1) ps
+    have := Nat.mod_lt (sorted.length + ps - 1) (by omega : ps > 0)
+    rw [Nat.mul_comm]
+    omega
+  calc sorted.length ≤ numPages sorted.length ps * ps := h2
+    _ ≤ 2 ^ clog2 (numPages sorted.length ps) * ps := Nat.mul_le_mul_right ps h1
+
+
 end SpVerif.RTree
